@@ -54,6 +54,12 @@ def make_cases(ctx, cid, en, flags):
     sub = {"id": cid + "t", "en": en, "decl": decl, "flags": flags, "kind": "trunc",
            "sexp": enumgen.case_sexp(cid + "t", "c12t", en, [["ints"] + [[tv] + [str(v) for v in vs] for tv, vs in tints]]),
            "cmd": "shoot.IsEnum[%s, TV](v) for every integer type TV" % T}
+    vsub = None
+    if "sql" in flags:
+        vsub = {"id": cid + "v", "en": en, "decl": decl, "flags": flags, "kind": "sqlvalue",
+                "sexp": enumgen.case_sexp(cid + "v", "c12v", en, [["target", str(target)], ["strs"] + [Q(s) for s in strs]]),
+                "cmd": "Scan(Value(c)) / Scan(string) on the output of shoot " + " ".join(args)}
+    main["vsub"] = vsub
     return main, sub
 
 
@@ -82,6 +88,7 @@ def run_cases(ctx, pairs, name="mod"):
         rel, gen = enumgen.generated_file(r["written"])
         im = {"exit": str(rc)}
         sim = {}
+        vim = {}
         main["detail"] = {"stderr": r["runs"][0]["stderr"][-400:], "compile": r["compile"], "generated": rel, "probes": main["probes"]}
         if rc == 0 and not rel:
             im["file"] = "none"
@@ -100,17 +107,23 @@ def run_cases(ctx, pairs, name="mod"):
                 for k, v in obs.items():
                     if k.startswith("T/"):
                         sim[k[2:]] = v
+                    elif k.startswith("V/"):
+                        vim[k[2:]] = v
                     else:
                         im[k] = v
         impl[main["id"]] = im
         if sub:
             impl[sub["id"]] = sim
-    cases = [c for p in pairs for c in p if c]
+        if main.get("vsub"):
+            impl[main["vsub"]["id"]] = vim
+    cases = [c for p in pairs for c in list(p) + [p[0].get("vsub")] if c]
     model = core.model_run(ctx, [c["sexp"] for c in cases])
     return cases, impl, model
 
 
 def sig(c, region, dk, im, m):
+    if region == "F_sql_value_string" and all(k.split(":")[0] in ("sql.rtv", "sql.sdec") for k in dk):
+        return region
     kinds = sorted(set(k.split(":")[0] for k in dk))
     return "%s:%s" % (region, ",".join(kinds))
 
@@ -129,7 +142,7 @@ def run(ctx, obl):
             res.hist("requested-feature", main["en"].get("feature", "random"))
             res.hist("constants", str(len(main["decl"])))
         core.compare_cases(ctx, res, cases, impl, model, sig=sig,
-                           nontrivial=lambda c, m, im: m["region"] != "Out" and (c["kind"] == "trunc" or len(c["decl"]) >= 2))
+                           nontrivial=lambda c, m, im: m["region"] != "Out" and (c["kind"] != "main" or len(c["decl"]) >= 2))
         for v in res.violations:
             cid = v["case"].split(" ")[1]
             for c in cases:
@@ -148,8 +161,8 @@ def run(ctx, obl):
                 "separate case, IsEnum[T, TV] for all 10 integer types TV on declared values, the integers that wrap onto them in T, their "
                 "reinterpretations in TV and the corners of both types. non-trivial = distinct (enum, flag set) with at least two constants")
     res.assumptions = ["encoding/json string encode/decode are inverse on ASCII identifiers; a JSON document is classified by Python's json module",
-                       "a SQL text column hands Scan the bytes of the string that Value returned (Scan(Value()) itself is a string and is rejected by design of the template)",
-                       "int and uint are 64 bit wide"]
+                       "the main case models the SQL text transport as []byte (what lib/pq and go-sql-driver/mysql hand to Scan); the pair through the Go string that Value() itself returns is the separate case <id>v",
+                       "int and uint are 64 bit wide (kinds `int`/`uint` are 64 bits in the model, amd64/arm64 in the runs); 32-bit platforms, where IsEnum[T, int] probes and int-kinded enums have a 32-bit range, are neither modelled nor exercised"]
     return res
 
 
